@@ -539,7 +539,7 @@ type replayBinary struct {
 }
 
 func newReplayBinary(pkgRel, hdir string) (*replayBinary, error) {
-	ld, err := Load("/repo", pkgRel, hdir)
+	ld, err := Load(repoRoot(), pkgRel, hdir)
 	if err != nil {
 		return nil, err
 	}
